@@ -91,7 +91,11 @@ RECURSIVE OutsViol(_, _, _, _, _, _, _, _)
 OutsViol(e, outs, pre, fin, ms, rq, synws, k) ==
   IF outs = <<>> THEN <<>>
   ELSE LET o == Head(outs) IN
-       IF ~IsTcp(o) THEN OutsViol(e, Tail(outs), pre, fin, ms, rq, synws, k)
+       IF ~IsTcp(o) THEN
+            \* a TCP segment that leaves the interface as IP fragments carries more than the local MTU allows (S2)
+            (IF "proto" \in DOMAIN o /\ o.proto = 6 /\ "mf" \in DOMAIN o /\ (o.mf \/ o.foff > 0)
+             THEN << <<l, "S2", e, "ip-fragment", o.iplen, o.foff>> >> ELSE <<>>)
+            \o OutsViol(e, Tail(outs), pre, fin, ms, rq, synws, k)
        ELSE LET sw == IF o.syn /\ ~o.rst THEN [synws EXCEPT ![e] = o.ws] ELSE synws
             IN OutViol(e, o, pre, fin, ms, rq, sw, k) \o OutsViol(e, Tail(outs), pre, fin, IF o.norel THEN ms ELSE Max(ms, o.seq + SegLen(o)), rq, sw, k)
 \* folds over the emitted frames: new advertised edge, highest ack emitted, highest sequence sent, own window-scale option
